@@ -204,6 +204,26 @@ pub fn sample_json(subj: &dyn DynSubject, v: &Val, bytes: Option<&[u8]>, extra: 
     })
 }
 
+/// Whether `/dev/full` is the character device it should be (code under test that renames a file over its
+/// destination can replace the node by a regular file when the harness runs as root; the checks that rely on the
+/// device then say so instead of reporting nonsense).
+pub fn dev_full_ok() -> bool {
+    use std::os::unix::fs::FileTypeExt;
+    std::fs::metadata("/dev/full").map_or(false, |m| m.file_type().is_char_device())
+}
+
+/// Restore `/dev/full` if a store replaced the device node (best effort, needs CAP_MKNOD).
+pub fn repair_dev_full() {
+    if !dev_full_ok() {
+        let _ = std::fs::remove_file("/dev/full");
+        let c = std::ffi::CString::new("/dev/full").unwrap();
+        unsafe {
+            libc::mknod(c.as_ptr(), libc::S_IFCHR | 0o666, libc::makedev(1, 7));
+            libc::chmod(c.as_ptr(), 0o666);
+        }
+    }
+}
+
 /// The value being replayed, if this process replays a saved failure.
 pub fn replay_val() -> Option<Val> {
     REPLAY_VAL.with(|c| c.borrow().clone())
@@ -272,7 +292,11 @@ pub fn prefix_masked(enc: &Encoded, a: &[u8], full: &[u8]) -> bool {
     a.len() <= full.len() && (0..a.len()).all(|i| !enc.mask.get(i).copied().unwrap_or(true) || a[i] == full[i])
 }
 
-pub const BOUNDS_PANICS: [&str; 5] = ["range end index", "range start index", "index out of bounds", "out of range for slice", "slice index starts at"];
+/// Messages of panics that are bounds checks: the wording of the standard library's slice checks, and the usual
+/// wordings of a hand-written check that the requested bytes are available (a change of message in the code
+/// under test must not turn a refusal into an alarm; whether bytes outside the prefix are read is decided by the
+/// release-like and AddressSanitizer builds, not by the text of the panic).
+pub const BOUNDS_PANICS: [&str; 11] = ["range end index", "range start index", "index out of bounds", "out of range for slice", "slice index starts at", "not enough data", "not enough bytes", "out of bounds", "too short", "mid > len", "unexpected end"];
 
 pub fn is_bounds_panic(p: &str) -> bool {
     BOUNDS_PANICS.iter().any(|m| p.contains(m)) && p.contains("epserde/src/")
